@@ -805,6 +805,24 @@ def _(d):
     return [_field(d)], lambda g: g.clone(np.int32)
 
 
+@spec("grid.set_data_bounded", "gis")
+def _(d):
+    # declared data range: upper bound only, lower bound only, both; the
+    # array assigned holds values outside it
+    def run(a):
+        out = []
+        for lo, hi in ((None, 5.), (-5., None), (-5., 5.)):
+            g = Grid("x", 4, 4)
+            if lo is not None:
+                g.mindata = lo
+            if hi is not None:
+                g.maxdata = hi
+            g.data = a
+            out.append(g)
+        return out
+    return [d.V(np.resize(d.obs, 16).reshape(4, 4), containers=ND)], run
+
+
 @spec("grid.set_data", "gis")
 def _(d):
     def run(a):
